@@ -108,7 +108,11 @@ def _pool_task(packed):
 
 def _pool_plain(packed):
     fn, arg = packed
-    return fn(arg)
+    try:
+        return fn(arg)
+    except Exception:
+        # a bug in the harness (or an output shape it did not expect) is reported as such, never as a verdict
+        return {"harness": 1, "harness_trace": traceback.format_exc()[-1500:]}
 
 
 class Pool:
